@@ -25,6 +25,7 @@ func TestVerifC02Conc(t *testing.T) {
 	out := vOpen(t)
 	defer out.Close()
 	c02InstallTicker(t)
+	c02InstallErrHandler(t)
 
 	run := func(gen string, cfg c02Cfg, G, rep, A, extra int, seed uint64) {
 		s := c02New(cfg)
@@ -145,6 +146,12 @@ func TestVerifC02Conc(t *testing.T) {
 			p := "p" + vPick(r, temps) + vPick(r, temps)
 			at := r.Intn(len(rs) + 1)
 			rs = append(rs[:at], append([]string{p}, rs[at:]...)...)
+		}
+		if r.Intn(4) == 0 {
+			// a reader that rejects / drops a sum kind, before or between the others
+			x := "m" + vPick(r, temps) + vPick(r, temps) + vPick(r, []string{"u", "c", "b", "D"})
+			at := r.Intn(len(rs))
+			rs = append(rs[:at], append([]string{x}, rs[at:]...)...)
 		}
 		ni := 1 + r.Intn(3)
 		for k := 0; k < ni; k++ {
